@@ -67,6 +67,8 @@ def gen_requests(rng, tier):
 
 
 def run(res, replay=None):
+    # structural tie of the configuration classes (locus.py, lineage.py, StateSpace.alpha): translate the CURRENT source and re-check proofs/GenConfigsEquiv.v
+    import translate_step; (res.proof is not None) and translate_step.run(res.proof, pid=res.pid, tie='configs')
     rng = random.Random(res.seed)
     res.rule = ('invalid stream: members of every invalid class of the property (locus counts, multiple mergers / SFS with two '
                 'loci, negative times at construction / cdf / accumulate / moment, end before start, non-positive sizes by 9 '
